@@ -227,11 +227,12 @@ def eagerEvents (cfg : Cfg) (n : Nat) (s : Sys) : List Event :=
   (if s.ctx && cfg.gSenderErr then [] else [Event.sender .report]) ++
   (List.range n).flatMap (fun i => [Event.mux i .done, .worker i .close]) ++
   (if s.ctx then [] else
-    [Event.emux false .recv, .emux true .recv] ++
+    -- a multiplexer may take an item early only if it can still drop it after the cancel (guarded send)
+    (if cfg.gEMuxSend then [Event.emux false .recv, .emux true .recv] else []) ++
     (match s.merged.buf with
       | .buf _ _ :: _ => []
       | _ => [Event.sender .recv]) ++
-    (List.range n).flatMap (fun i => [Event.mux i .recv, .worker i .send]) ++
+    (List.range n).flatMap (fun i => (if cfg.gMuxSend then [Event.mux i .recv] else []) ++ [Event.worker i .send]) ++
     (if s.inp.buf.isEmpty then (List.range n).map (fun i => Event.worker i .recv) else []))
 
 /-- apply eager steps until none is enabled; `acc` = events so far, reversed -/
